@@ -292,6 +292,10 @@ pub fn render_doc(text: &str, style: ScalarStyle, tag: TagK) -> Option<String> {
     }
     Some(match style {
         ScalarStyle::Plain => {
+            if text.is_empty() {
+                // a node with no content at all: `k: !!str` / `k:` (the parser reports an empty plain scalar)
+                return Some(format!("k: {t}\n"));
+            }
             if !plain_expressible(text) {
                 return None;
             }
